@@ -14,6 +14,10 @@ U4S = "u4_params_safety"
 U5 = "u5_hub"
 U6 = "u6_text"
 
+# units verified as watch-only auxiliaries by every check that has a witness search (U4S is left out:
+# it repeats U4's function without preconditions and fails by design at the known findings D9)
+ALL_UNITS = [U1, U2, U3, U4, U5, U6]
+
 PROPS = {
     "C01": {
         "witness": ("w_server", ['w_c01_chunkings', 'w_c12_flush', 'w_c19_faults']),
